@@ -478,18 +478,23 @@ func superviseCheck(p Property, tier string, seed uint64) int {
 	})
 	confirmed := 0
 	confirmStart := time.Now()
+	// how long a case may run alone, budgets lifted, before it counts as not finishing; and for all of them together
+	confirmEach, confirmTotal := 60*time.Second, 6*time.Minute
+	if tier != "thorough" {
+		confirmEach, confirmTotal = 25*time.Second, 75*time.Second
+	}
 	for _, c := range candidates {
 		if confirmed >= 3 {
 			break
 		}
-		if time.Since(confirmStart) > 6*time.Minute {
+		if time.Since(confirmStart) > confirmTotal {
 			// a nomination is not a violation; what is left unconfirmed is only counted
 			merged.Count("nominations_left_unconfirmed")
 			continue
 		}
 		ph := phases[c.phase]
 		base := []string{"solo", p.ID(), "--tier", tier, "--seed", strconv.FormatUint(seed, 10), "--phase", strconv.Itoa(c.phase), "--idx", strconv.Itoa(c.idx)}
-		co := runChild(60*time.Second, append(base, "--nobudget")...)
+		co := runChild(confirmEach, append(base, "--nobudget")...)
 		if !co.died && !co.hung {
 			if co.exit == 3 {
 				// an ordinary violation that shows only alone: report it through the normal path
@@ -527,7 +532,7 @@ func superviseCheck(p Property, tier string, seed uint64) int {
 				}
 			}
 		}
-		rf := &ReplayFile{Property: p.ID(), Clause: "process-" + kind, Detail: "the process running the library " + kind + " on this case (confirmed alone in a fresh process, budgets lifted, 60 s)",
+		rf := &ReplayFile{Property: p.ID(), Clause: "process-" + kind, Detail: fmt.Sprintf("the process running the library %s on this case (confirmed alone in a fresh process, budgets lifted, %v)", kind, confirmEach),
 			Seed: seed, Phase: ph, PhaseIdx: c.phase, CaseIdx: c.idx, Tape: sr.Tape, Case: sr.Case, Crash: kind, CrashLog: crashSummary(string(co.stderr))}
 		rf = shrinkCrash(rf, dir)
 		violations = append(violations, rf)
